@@ -84,6 +84,12 @@ impl DodecahedronProjection {
 
     /// Unprojects face coordinates to spherical coordinates using dodecahedron projection
     pub fn inverse(&mut self, face: Face, origin_id: OriginId) -> Result<Spherical, String> {
+        // Validate before the triangle caches are consulted: the slot of an invalid origin
+        // would alias the reflected slot of a valid one
+        if (origin_id as usize) >= get_origins().len() {
+            return Err("Invalid origin ID".to_string());
+        }
+
         let polar = to_polar(face);
         let face_triangle_index = self.get_face_triangle_index(polar)?;
 
